@@ -144,6 +144,9 @@ type call struct {
 // "per-call-timeout" (the time-out is given in the ClientContext instead of on the client).
 var callerMode = "plain"
 
+// callerDeadlineAfter, when set, gives the caller's context a deadline that long after the case's start.
+var callerDeadlineAfter time.Duration
+
 func drawCallerMode(rt *rapid.T) string {
 	callerMode = rapid.SampledFrom([]string{"plain", "plain", "far-deadline", "per-call-timeout", "far-deadline+per-call-timeout"}).Draw(rt, "callerContext")
 	return callerMode
@@ -152,6 +155,12 @@ func drawCallerMode(rt *rapid.T) string {
 func startCall(c *core.Client, name, tag string, t0 time.Time) *call {
 	ctx, cancel := context.WithCancel(context.Background())
 	mode := callerMode
+	if callerDeadlineAfter > 0 {
+		var cancelDeadline context.CancelFunc
+		ctx, cancelDeadline = context.WithDeadline(ctx, t0.Add(callerDeadlineAfter))
+		inner := cancel
+		cancel = func() { cancelDeadline(); inner() }
+	}
 	if strings.Contains(mode, "far-deadline") {
 		var cancelDeadline context.CancelFunc
 		ctx, cancelDeadline = context.WithDeadline(ctx, time.Now().Add(10*time.Minute))
